@@ -873,6 +873,11 @@ impl Store {
                 continue;
             }
 
+            // the atc index pads or truncates the tag value, so compare the whole d value
+            if event.tags()?.get_value(b"d") != Some(addr.d.as_slice()) {
+                continue;
+            }
+
             return Ok(Some(event));
         }
 
@@ -973,10 +978,12 @@ impl Store {
         for result in iter {
             let (_key, offset) = result?;
 
-            // Our index doesn't have Kind embedded, so we have to check it
+            // Our index doesn't have Kind embedded, and it pads or truncates the tag value,
+            // so we have to check the kind and the whole d value
             let matches = {
                 let event = self.get_event_by_offset(offset)?;
                 event.kind() == addr.kind
+                    && event.tags()?.get_value(b"d") == Some(addr.d.as_slice())
             };
 
             if matches {
